@@ -63,18 +63,19 @@ let hex_of_bytes (bs : Labels.z list) : string =
 
 let () =
   let st = ref Labels.init in
-  (* the FLAT byte-buffer model (Labels.FlatModel, proven to run in lock step with the structured one) is executed alongside when the
-     program was started with PF: its error / size / count must equal the structured model's on every operation, its bytes are dumped *)
+  (* the FLAT byte-buffer model in its sparse-buffer form (Labels.SparseModel, proven equal to Labels.FlatModel, which is proven to run in
+     lock step with the structured one) is executed alongside when the program was started with PF: its error / size / count must
+     equal the structured model's on every operation, its buffers are dumped *)
   let fl = ref None in
   let fmis = ref 0 in
   let run_op (o : Labels.op) =
     let (s', e) = Labels.step !st o in
     (match !fl with
      | Some f ->
-       let (f', e') = Labels.fstep f o in
+       let (f', e') = Labels.sstep f o in
        fl := Some f';
-       if e' <> e || f'.Labels.f_unresolved <> s'.Labels.unresolved
-          || List.length (Labels.f_cur_sec f') <> Z.to_int (z_of_cz (Labels.cur_sec s').Labels.s_len) then incr fmis
+       if e' <> e || f'.Labels.s_unresolved <> s'.Labels.unresolved
+          || Labels.sb_len (Labels.s_cur_buf f') <> (Labels.cur_sec s').Labels.s_len then incr fmis
      | None -> ());
     st := s';
     Printf.printf "%s %d %s %s\n" (err_name e) (int_of_nat s'.Labels.cur)
@@ -87,7 +88,7 @@ let () =
       (try
         match toks with
         | ["P"] -> st := Labels.init; fl := None; fmis := 0; print_endline "P"
-        | ["PF"] -> st := Labels.init; fl := Some Labels.finit; fmis := 0; print_endline "P"
+        | ["PF"] -> st := Labels.init; fl := Some Labels.sinit; fmis := 0; print_endline "P"
         | ["NL"] -> run_op Labels.ONewLabel
         | ["NS"] -> run_op Labels.ONewSection
         | ["S"; k] -> run_op ((Labels.OSection (nat_of_int (int_of_string k))))
@@ -122,8 +123,13 @@ let () =
            | Some f ->
              let b = Buffer.create 1024 in
              Buffer.add_string b (dump !st);
-             Buffer.add_string b (Printf.sprintf " | FLAT %d %s" !fmis (string_of_cz f.Labels.f_unresolved));
-             List.iteri (fun i bs -> Buffer.add_string b (Printf.sprintf " | FSEC %d %s" i (hex_of_bytes bs))) f.Labels.f_secs;
+             Buffer.add_string b (Printf.sprintf " | FLAT %d %s" !fmis (string_of_cz f.Labels.s_unresolved));
+             List.iteri (fun i chunks ->
+               let segs = List.filter_map (fun c -> match c with
+                 | Labels.CB [] -> None
+                 | Labels.CB bs -> Some (hex_of_bytes bs)
+                 | Labels.CZ n -> Some ("Z" ^ string_of_cz n)) chunks in
+               Buffer.add_string b (Printf.sprintf " | FSEC %d %s" i (if segs = [] then "-" else String.concat "," segs))) f.Labels.s_bufs;
              print_endline (Buffer.contents b))
         | _ -> print_endline "BAD"
       with Failure m -> print_endline ("BAD " ^ m) | Invalid_argument m -> print_endline ("BAD " ^ m))
